@@ -11,6 +11,7 @@ import z3
 
 import listsum
 import mirsym
+import optsum
 import oblig
 import summaries
 from common import Inconclusive
@@ -18,6 +19,16 @@ from mirsym import Agg, Bool, EnumV, Int, Lazy, ListV, Ref, Unit
 
 INL = (r"file::<impl[^>]*>::(len|deref)$|dedupe::<impl[^>]*>::(should_keep|may_drop)$|^(dedupe::)?was_modified$|"
        r"file\.rs:\d+:\d+: \d+:\d+>::(eq|ne|partial_cmp|cmp)$")
+
+DEDUPE_LEAVES = r"sort_by_priority$|FsCommand::|(^|::)(move_target|are_on_same_mount)$|::warn$|Log::|(^|::)log_script$|(^|::)run_script$"
+
+
+def dedupe_inliner(prog):
+    """helpers of dedupe.rs are inlined (so the analysis does not depend on how partition / was_modified / dedupe_script are
+    factored into functions); the file-level should_keep / may_drop stay pure predicates through their summaries"""
+    minl = oblig.module_inliner(prog, "dedupe.rs", DEDUPE_LEAVES)
+    return lambda c, t: bool(re.search(INL, t.name)) or minl(c, t)
+
 
 def _file_level(tag):
     base = summaries.pure(tag)
@@ -79,10 +90,11 @@ class PartPath:
 
 def analyse(prog, nfiles, pattern, with_priority=False):
     """-> (engine, [PartPath]) for one grouping pattern"""
-    extra = dict(listsum.LIST)
+    extra = dict(optsum.SUMMARIES)
+    extra.update(listsum.LIST)
     extra.update(PURE)
     extra[r"^(group::)?FileSubGroup::group$|FileSubGroup<.*>::group$"] = group_summary(pattern)
-    eng = oblig.engine(prog, unroll=nfiles + 2, inline=INL, extra=extra, solver_timeout_ms=30000)
+    eng = oblig.engine(prog, unroll=nfiles + 2, inline=dedupe_inliner(prog), extra=extra, solver_timeout_ms=30000)
     part = prog.find(r"^(dedupe::)?partition$")
     files = [Lazy("f%d" % i, "dedupe::PathAndMetadata") for i in range(nfiles)]
     fi = prog.src.field_index
@@ -271,9 +283,10 @@ def run_partition_obligations(prog, nfiles_list=(2, 3)):
 
 def was_modified_semantics(prog):
     """was_modified(files, after) == exists file: modified() is Err or local(mtime) > local(after)"""
-    extra = dict(listsum.LIST)
+    extra = dict(optsum.SUMMARIES)
+    extra.update(listsum.LIST)
     extra.update(PURE)
-    eng = oblig.engine(prog, unroll=4, inline=INL.replace(r"|^(dedupe::)?was_modified$", ""), extra=extra)
+    eng = oblig.engine(prog, unroll=4, inline=dedupe_inliner(prog), extra=extra)
     wm = prog.find(r"^(dedupe::)?was_modified$")
     files = [Lazy("f%d" % i, "dedupe::PathAndMetadata") for i in range(2)]
     mem = {"fl": ListV(files, "Vec")}
